@@ -92,7 +92,10 @@ parser { "a"; h(); try { "bc"; m = 1; } catch {} }"""),
 FEATURES += [
     ("feat-trigraph", [], """out str[24] s = "??)a??!b??'"; out str[24] t; hook h;
 parser { "a"; s = "x??(??=??/??<??>??-"; h(); "b"; t = "%d\\n??/"; s = "?" ; h(); "c"; t = "a??b"; }"""),
-    # an action-only conditional among the start actions that mentions $last: there is no byte yet (rejected, never emitted)
+]
+# programs the compiler must reject in code generation (used by the checks that look at emitted text only)
+CODEGEN_REJECTED = [
+    # an action-only conditional among the start actions that mentions $last: there is no byte yet
     ("feat-start-last-cond", [], """out int n = 0;
 parser { if $last == 5 { n = 1; } elif n == 0 { n = 2; } "a"; }"""),
 ]
